@@ -10,7 +10,7 @@ INCLUDES  := -Ishim -I$(REPO) -I$(REPO)/bluetoe/sm/include -I$(REPO)/bluetoe/uti
              -I$(REPO)/bluetoe/bindings/nordic/include
 LDFLAGS   := $(SAN) -pthread
 
-HARNESSES := wl_sim nq_sim ring_sim irq_sim pdu_sim sdu_sim gatt_sim stack_sim
+HARNESSES := wl_sim nq_sim ring_sim irq_sim pdu_sim sdu_sim gatt_sim stack_sim sm_sim
 
 REPO_OBJS := $(BUILD)/repo/address.o $(BUILD)/repo/channel_map.o $(BUILD)/repo/delta_time.o $(BUILD)/repo/connection_details.o
 
@@ -59,6 +59,26 @@ $(BUILD)/gatt_sim.o: harness/gatt_sim.cpp harness/gatt_world.hpp $(BUILD)/gen/ga
 
 $(BUILD)/gatt_sim: $(BUILD)/gatt_sim.o $(GATT_CFG_OBJ) $(BUILD)/sim.o $(REPO_OBJS)
 	$(CXX) $^ $(LDFLAGS) -o $@
+
+# ---- sm_sim: security managers with the real nRF52 tool box over the emulated RNG/ECB registers of shim/nrf.h
+# (the one pointer -> 32 bit register cast in security_tool_box.cpp needs -fpermissive; -no-pie keeps static storage below 4 GiB so the cast is lossless)
+NORDIC := $(REPO)/bluetoe/bindings/nordic
+SM_INCLUDES := $(INCLUDES) -I$(NORDIC)/nrf52/include -I$(NORDIC)/uECC
+
+$(BUILD)/repo/security_tool_box.o: $(NORDIC)/nrf52/security_tool_box.cpp shim/nrf.h
+	@mkdir -p $(dir $@)
+	$(CXX) $(CXXFLAGS) -fpermissive -w $(SM_INCLUDES) -MMD -c $< -o $@
+
+$(BUILD)/repo/uECC.o: $(NORDIC)/uECC/uECC.c
+	@mkdir -p $(dir $@)
+	gcc -O2 -g -w -DuECC_CURVE=uECC_secp256r1 -I$(NORDIC)/uECC -MMD -c $< -o $@
+
+$(BUILD)/sm_sim.o: harness/sm_sim.cpp sim/sim.hpp shim/nrf.h
+	@mkdir -p $(dir $@)
+	$(CXX) $(CXXFLAGS) -Wno-deprecated-declarations $(SM_INCLUDES) -MMD -c $< -o $@
+
+$(BUILD)/sm_sim: $(BUILD)/sm_sim.o $(BUILD)/sim.o $(BUILD)/repo/address.o $(BUILD)/repo/security_tool_box.o $(BUILD)/repo/uECC.o
+	$(CXX) $^ $(LDFLAGS) -no-pie -lcrypto -o $@
 
 clean:
 	rm -rf $(BUILD)
